@@ -582,6 +582,8 @@ def evolve(g, old, new_name):
     new = copy.deepcopy(old)
     new.name = new_name
     for _, d in all_typedefs(new):
+        # the added fields are not Copy/Ord/..: #[rust(impl_*)] on the evolved type would be a user error
+        d.attrs = []
         if d.kind == "struct":
             used = {f["name"].lower().replace("_", "") for f in d.fields} | ({d.fallback} if d.fallback else set())
             ids = {f["id"] for f in d.fields}
